@@ -350,6 +350,11 @@ class ProcessRunner(Runner, ABC):
                 storage=storage
             )
         finally:
+            # Hand captured output over to the log queue before the
+            # result is returned, so that it is not lost or delayed
+            # until after the parent has stopped listening.
+            sys.stdout.flush()
+            sys.stderr.flush()
             process_event_queue.put(ProcessEndEvent(
                 task_name=task_name,
             ))
